@@ -490,7 +490,13 @@ fn stage_c_chains(ctx: &Ctx, q: u8, rep: &mut Report) {
                 blocks: std::array::from_fn(|_| SymBlock { intradc: if intra { Some(100) } else { None }, events: vec![Ev { run: 0, level: 2, esc: Esc::Short }] }),
             })
             .collect();
-        let pic = SymPicture { hdr, w: 16 * n, h: 16, mbs, stuffing: vec![] };
+        // every third chain has MCBPC stuffing between its macroblocks (stuffing is not a macroblock: the
+        // quantiser in force carries over it)
+        let stuffing: Vec<u8> = if ci % 3 == 2 { (0..n).map(|i| if i > 0 { 1 + (rng.below(2) as u8) } else { 0 }).collect() } else { vec![] };
+        if !stuffing.is_empty() {
+            rep.count("C:dquant_chains_with_stuffing");
+        }
+        let pic = SymPicture { hdr, w: 16 * n, h: 16, mbs, stuffing };
         let bytes = pic.encode();
         rep.evaluations += 1;
         let mut dec = Dec::new(flavour.sorenson(), false);
@@ -655,6 +661,7 @@ pub fn run(ctx: &Ctx) -> (Report, String) {
         rep.require("C:dquant_clamped", 8);
         rep.require("C:dquant_on_empty_macroblock", 31 * 4 * 2);
         rep.require("C:dquant_chains", 31 * 80);
+        rep.require("C:dquant_chains_with_stuffing", 31 * 20);
         rep.require("C:dquant_chains_leaving_a_clamp", 100);
         rep.require("C:version_mix:variant0", 31 * 18);
         rep.require("C:version_mix:variant1", 31 * 18);
